@@ -332,6 +332,7 @@ func run(c *rig.Ctx) {
 	storm(c)
 	logoImages(c)
 	oddStackDispatches(c)
+	haltBugPrefixed(c)
 
 	// (iv) arbitrary images: odd lengths, and every (type, size) header pair on small images
 	lengths := []int{0, 1, 0x100, 0x147, 0x148, 0x149, 0x14a, 0x150, 0x3fff, 0x4000, 0x7fff, 0x8000, 0x8001, 0xc000, 0x10000, 0x10001, 0x20000}
